@@ -136,10 +136,36 @@ def c07(ctx):
     return r_order.em_fallback(ctx.cache, ctx.prog, eval_model(ctx), run)
 
 
+def _mark_undocumented_handlers(ctx):
+    """handlers registered only under names the documented language does not have (a feature's `round` / `floor`), and
+    the bodies only they reach"""
+    if 'undoc' in ctx.cache:
+        return
+    ctx.cache['undoc'] = True
+    prog = ctx.prog
+    try:
+        rows, _ = r_table.builtin_rows(prog, reg_model(ctx))
+        documented = set(r_top.load_spec()) | set(r_top.UNARY_SPEC) | {'min', 'max', 'sum', 'mul', 'AND', 'OR', 'in', 'beginWith', 'endWith', '='}
+        by_clo = {}
+        for r in rows:
+            if r.get('closure'):
+                by_clo.setdefault(r['closure'], set()).add(r['name'])
+        doc = [c for c, names in by_clo.items() if names & documented or None in names]
+        undoc = [c for c, names in by_clo.items() if not (names & documented) and None not in names]
+        em = eval_model(ctx)
+        base = set(em.reach) | prog.reach([c for c in doc if c in prog.by_id])
+        extra = prog.reach([c for c in undoc if c in prog.by_id]) - base
+        # handlers the table could not attribute stay strict
+        r_nowrap.UNDOCUMENTED_HANDLER_BODIES = set(extra)
+    except Exception:
+        r_nowrap.UNDOCUMENTED_HANDLER_BODIES = set()
+
+
 def exec_scope(ctx):
     """bodies on the evaluation side: Reach(ExprAST::exec) plus every built-in handler and what it calls"""
     em = eval_model(ctx)
     prog = ctx.prog
+    _mark_undocumented_handlers(ctx)
     ids = set(em.reach)
     hs = prog.builtin_handlers()
     ids |= prog.reach([h.id for h in hs])
@@ -331,6 +357,7 @@ def c03(ctx):
     obs += r_value.rule_htyped(prog, hs)
     obs += r_value.rule_hgate(prog, hs)
     hscope = [prog.by_id[i] for i in sorted(prog.reach([h.id for h in hs]))]
+    _mark_undocumented_handlers(ctx)
     obs += r_nowrap.rule_nowrap([b for b in hscope if not b.derived])
     obs.append(floor('HTYPED', 'builtin-handlers', len(hs), 20, 'documented built-in operators and functions'))
     rows, probs = r_table.builtin_rows(prog, reg_model(ctx))
@@ -415,6 +442,7 @@ def c09(ctx):
     roles = parse_roles(ctx)
     em = eval_model(ctx)
     obs = r_num.rule_tychain(prog, roles)
+    _mark_undocumented_handlers(ctx)
     bodies = r_num.number_scope(prog, roles, em)
     obs += r_num.rule_wfloat(bodies)
     obs += [o for o in r_nowrap.rule_nowrap([b for b in bodies if not b.name.startswith('value::Value::')], rule='NUMPATH') if o.status == 'violated' and '|lossy:' in o.key]
